@@ -228,3 +228,229 @@ Proof.
 Qed.
 
 End Rel.
+
+(* ------------------------------------------------------------------ *)
+(* B. whole programs                                                     *)
+(* ------------------------------------------------------------------ *)
+
+Lemma insn_rel_mono (X Y : uexpr -> list byte -> Prop) caf daf ri i :
+  (forall u e, X u e -> Y u e) -> insn_rel X caf daf ri i -> insn_rel Y caf daf ri i.
+Proof.
+  intros H (d & off & total & E1 & E2 & E3 & E4). exists d, off, total. repeat split; try assumption.
+  intros e He. apply H, E4, He.
+Qed.
+
+Lemma vendor_bad aa i : vendor_ok aa i = false -> aa = false /\ i = NegateRaState.
+Proof. unfold vendor_ok. destruct aa; [discriminate|]. destruct i; cbn; try discriminate. auto. Qed.
+
+Section Progs.
+Variable X : uexpr -> list byte -> Prop.
+Variable caf : N.
+Variable daf : Z.
+Variable aa : bool.
+
+(* the reader's item list of a CIE instruction area implements the abstract instruction list:
+   one reader instruction per abstract instruction with that meaning, then nop padding; a negate_ra_state the
+   reader's vendor does not know ends the list with UnknownCallFrameInstruction *)
+Inductive implc : list cfi -> list item -> Prop :=
+| implc_nil n : implc [] (map It (repeat INop n))
+| implc_cons i ri l items :
+    insn_rel X caf daf ri i -> vendor_ok aa i = true -> implc l items -> implc (i :: l) (It ri :: items)
+| implc_bad i l : vendor_ok aa i = false -> implc (i :: l) [Bad EUnknownCallFrameInstruction].
+
+(* ... and of an FDE instruction area the (offset, instruction) script: an advance_loc by the factored
+   distance exactly where the offset grows *)
+Inductive impl : N -> list (N * cfi) -> list item -> Prop :=
+| impl_nil prev n : impl prev [] (map It (repeat INop n))
+| impl_same prev i ri l items :
+    insn_rel X caf daf ri i -> vendor_ok aa i = true -> impl prev l items ->
+    impl prev ((prev, i) :: l) (It ri :: items)
+| impl_same_bad prev i l :
+    vendor_ok aa i = false -> impl prev ((prev, i) :: l) [Bad EUnknownCallFrameInstruction]
+| impl_adv prev off delta i ri l items :
+    prev < off -> delta * caf = off - prev -> off - prev < two64 ->
+    insn_rel X caf daf ri i -> vendor_ok aa i = true -> impl off l items ->
+    impl prev ((off, i) :: l) (It (IAdvanceLoc delta) :: It ri :: items)
+| impl_adv_bad prev off delta i l :
+    prev < off -> delta * caf = off - prev -> off - prev < two64 ->
+    vendor_ok aa i = false ->
+    impl prev ((off, i) :: l) [It (IAdvanceLoc delta); Bad EUnknownCallFrameInstruction].
+
+Variable c : caps.
+Variable p : sparams.
+Hypothesis Hcaf : sp_caf p = caf.
+Hypothesis Hdaf : sp_daf p = daf.
+
+Lemma xguard_cases xini xs : xguard c xini xs = Ok tt \/ exists e, xguard c xini xs = Err e.
+Proof.
+  unfold xguard. destruct (over _ _); [right; eexists; reflexivity|].
+  destruct (over _ _); [right; eexists; reflexivity|left; reflexivity].
+Qed.
+
+Lemma step_lim_sim ini xini s xs ri i :
+  state_rel X s xs -> omap_rel X ini xini -> insn_rel X caf daf ri i -> vendor_ok aa i = true ->
+  match step_lim c p ini s ri, xstep_lim c aa xini xs i with
+  | Ok (s', None), Ok xs' => s_loc s' = s_loc s /\ state_rel X s' xs' /\ guard c ini s' = Ok tt
+  | Err e, Err e' => e = e'
+  | _, _ => False
+  end.
+Proof.
+  intros Hst Hini Hrel Hv. rewrite <- Hcaf, <- Hdaf in Hrel.
+  pose proof (step_by_meaning X p aa ini xini s xs ri i Hst Hini Hrel Hv) as H.
+  unfold step_lim, xstep_lim, step_agrees in *.
+  destruct (spec_step p ini s ri) as [[s1 [row|]]|e| |], (script_step aa xini xs i) as [xs1|e'| |];
+    try contradiction; cbn [bind].
+  - destruct H as [Hl Hs1]. rewrite (guard_rel X c ini xini s1 xs1 Hs1 Hini).
+    destruct (xguard_cases xini xs1) as [G|(e & G)]; rewrite G; cbn [bind].
+    + split; [exact Hl|]. split; [exact Hs1|]. rewrite (guard_rel X c ini xini s1 xs1 Hs1 Hini). exact G.
+    + reflexivity.
+  - exact H.
+Qed.
+
+Lemma vendor_bad_step xini xs i :
+  vendor_ok aa i = false -> xstep_lim c aa xini xs i = Err EUnknownCallFrameInstruction.
+Proof. intros H. apply vendor_bad in H as [-> ->]. reflexivity. Qed.
+
+Lemma nops_run ini e s n :
+  guard c ini s = Ok tt -> spec_run c p ini e s (map It (repeat INop n)) = ([row_of s e], (Done, s)).
+Proof.
+  intros G. induction n as [|n IH]; [reflexivity|].
+  cbn [repeat map spec_run]. unfold step_lim. cbn [spec_step bind]. rewrite G. cbn [bind]. exact IH.
+Qed.
+
+(* the CIE's initial instructions *)
+Lemma cie_sim e : forall l items, implc l items -> forall s xs,
+  state_rel X s xs -> guard c None s = Ok tt ->
+  match script_cie c aa xs l with
+  | Ok xs' => exists rows s', spec_run c p None e s items = (rows, (Done, s')) /\ state_rel X s' xs' /\
+                              guard c None s' = Ok tt
+  | Err er => exists rows s', spec_run c p None e s items = (rows, (Fail er, s'))
+  | _ => False
+  end.
+Proof.
+  induction 1 as [n|i ri l items Hrel Hv _ IH|i l Hv]; intros s xs Hst G.
+  - cbn [script_cie]. exists [row_of s e], s. split; [apply nops_run; exact G|]. auto.
+  - cbn [script_cie spec_run].
+    pose proof (step_lim_sim None None s xs ri i Hst I Hrel Hv) as H.
+    destruct (step_lim c p None s ri) as [[s1 [row|]]|er| |], (xstep_lim c aa None xs i) as [xs1|er'| |];
+      try contradiction; cbn [bind].
+    + destruct H as (_ & Hs1 & G1). apply IH; assumption.
+    + subst er'. exists [], s. reflexivity.
+  - cbn [script_cie]. rewrite (vendor_bad_step None xs i Hv). cbn [bind spec_run].
+    exists [], s. reflexivity.
+Qed.
+
+(* the FDE's instructions at their code offsets *)
+Lemma fde_sim ini xini asz init e : sp_asize p = asz -> omap_rel X ini xini ->
+  forall prev l items, impl prev l items -> forall s xs,
+  state_rel X s xs -> guard c ini s = Ok tt -> s_loc s = init + prev ->
+  Forall2 (srow_rel X) (fst (spec_run c p ini e s items)) (fst (script_fde c aa xini asz init e prev xs l)) /\
+  fst (snd (spec_run c p ini e s items)) = snd (script_fde c aa xini asz init e prev xs l).
+Proof.
+  intros Hasz Hini.
+  assert (Hrow : forall s xs a b, state_rel X s xs -> s_loc s = a -> srow_rel X (row_of s b) (xrow_of xs a b)).
+  { intros s xs a b (H1 & H2 & H3 & _) Hl. unfold srow_rel, row_of, xrow_of.
+    cbn [sr_start sr_end sr_cfa sr_args sr_rules xr_start xr_end xr_cfa xr_args xr_rules]. auto. }
+  induction 1 as [prev n|prev i ri l items Hrel Hv _ IH|prev i l Hv
+                 |prev off delta i ri l items Hlt Hmul Hsm Hrel Hv _ IH|prev off delta i l Hlt Hmul Hsm Hv];
+    intros s xs Hst G Hloc.
+  - rewrite (nops_run ini e s n G). cbn [script_fde fst snd]. split; [|reflexivity].
+    constructor; [|constructor]. apply Hrow; assumption.
+  - cbn [script_fde spec_run]. rewrite N.ltb_irrefl.
+    pose proof (step_lim_sim ini xini s xs ri i Hst Hini Hrel Hv) as H.
+    destruct (step_lim c p ini s ri) as [[s1 [row|]]|er| |], (xstep_lim c aa xini xs i) as [xs1|er'| |];
+      try contradiction.
+    + destruct H as (Hl & Hs1 & G1). apply IH; [assumption|assumption|congruence].
+    + subst er'. cbn [fst snd outcome_of]. split; [constructor|reflexivity].
+  - cbn [script_fde spec_run]. rewrite N.ltb_irrefl. rewrite (vendor_bad_step xini xs i Hv).
+    cbn [fst snd outcome_of]. split; [constructor|reflexivity].
+  - (* an advance, then the instruction *)
+    cbn [script_fde]. replace (prev <? off) with true by lia.
+    change (spec_run c p ini e s (It (IAdvanceLoc delta) :: It ri :: items))
+      with (match step_lim c p ini s (IAdvanceLoc delta) with
+            | Ok (s', None) => spec_run c p ini e s' (It ri :: items)
+            | Ok (s', Some row) => let '(rows, fin) := spec_run c p ini e s' (It ri :: items) in (row :: rows, fin)
+            | Err er => ([], (Fail er, s))
+            | Panic => ([], (Crash, s))
+            | OutOfFuel => ([], (Fuel, s))
+            end).
+    unfold step_lim. cbn [spec_step].
+    assert (Ha : s_loc s + wrap64 (delta * sp_caf p) = init + off).
+    { rewrite Hcaf, Hmul. unfold wrap64. rewrite N.mod_small by exact Hsm. lia. }
+    rewrite Ha, Hasz. destruct (2 ^ (8 * asz) <=? init + off) eqn:Eov.
+    + cbn [bind fst snd]. split; [constructor|reflexivity].
+    + cbn [bind]. change (guard c ini (with_loc (init + off) s)) with (guard c ini s). rewrite G. cbn [bind].
+      set (s0 := with_loc (init + off) s).
+      assert (Hst0 : state_rel X s0 xs) by exact Hst.
+      assert (Hr0 : srow_rel X (row_of s (init + off)) (xrow_of xs (init + prev) (init + off))) by (apply Hrow; assumption).
+      cbn [spec_run].
+      pose proof (step_lim_sim ini xini s0 xs ri i Hst0 Hini Hrel Hv) as H.
+      destruct (step_lim c p ini s0 ri) as [[s1 [row|]]|er| |], (xstep_lim c aa xini xs i) as [xs1|er'| |];
+        try contradiction.
+      * destruct H as (Hl & Hs1 & G1).
+        specialize (IH s1 xs1 Hs1 G1 ltac:(rewrite Hl; reflexivity)).
+        destruct (spec_run c p ini e s1 items) as [rows [o sf]].
+        destruct (script_fde c aa xini asz init e off xs1 l) as [xrows xo]. cbn [fst snd] in *.
+        destruct IH as [IH1 IH2]. split; [constructor; assumption|exact IH2].
+      * subst er'. cbn [fst snd outcome_of]. split; [constructor; [exact Hr0|constructor]|reflexivity].
+  - cbn [script_fde]. replace (prev <? off) with true by lia.
+    cbn [spec_run]. unfold step_lim. cbn [spec_step].
+    assert (Ha : s_loc s + wrap64 (delta * sp_caf p) = init + off).
+    { rewrite Hcaf, Hmul. unfold wrap64. rewrite N.mod_small by exact Hsm. lia. }
+    rewrite Ha, Hasz. destruct (2 ^ (8 * asz) <=? init + off) eqn:Eov.
+    + cbn [bind fst snd]. split; [constructor|reflexivity].
+    + cbn [bind]. change (guard c ini (with_loc (init + off) s)) with (guard c ini s). rewrite G. cbn [bind].
+      rewrite (vendor_bad_step xini xs i Hv). cbn [fst snd outcome_of].
+      split; [constructor; [apply Hrow; assumption|constructor]|reflexivity].
+Qed.
+
+(* CIE then FDE: the table *)
+Lemma rows_sim asz init range lc lf itc itf :
+  sp_asize p = asz -> CfiRun.cap_full (max_stack c) 0 = false ->
+  implc lc itc -> impl 0 lf itf ->
+  Forall2 (srow_rel X) (fst (run_spec_lim c p init (spec_end asz init range) itc itf))
+                       (fst (script_rows_lim c aa asz init range lc lf)) /\
+  snd (run_spec_lim c p init (spec_end asz init range) itc itf) = snd (script_rows_lim c aa asz init range lc lf).
+Proof.
+  intros Hasz Hcap Hc Hf. unfold run_spec_lim, script_rows_lim.
+  assert (G0 : guard c None init_state = Ok tt).
+  { unfold guard, stack_occ, rules_occ. cbn [init_state s_stack s_rules length Nat.add].
+    rewrite <- CfiRunProofs.cap_full_over, Hcap. destruct (max_rules c); reflexivity. }
+  assert (S0 : state_rel X init_state init_x).
+  { unfold state_rel. cbn. repeat split; constructor. }
+  pose proof (cie_sim 0 lc itc Hc init_state init_x S0 G0) as H.
+  destruct (script_cie c aa init_x lc) as [xsc|er| |]; try contradiction.
+  - destruct H as (rows & sc & -> & Hsc & Gc).
+    assert (Hini : omap_rel X (Some (s_rules sc)) (Some (x_rules xsc))) by (destruct Hsc as (_ & H2 & _); exact H2).
+    change (guard c (Some (s_rules sc)) (with_loc init sc)) with (guard c (Some (s_rules sc)) sc).
+    rewrite (guard_rel X c _ _ sc xsc Hsc Hini).
+    destruct (xguard_cases (Some (x_rules xsc)) xsc) as [G|(e & G)]; rewrite G.
+    + assert (G' : guard c (Some (s_rules sc)) (with_loc init sc) = Ok tt).
+      { change (guard c (Some (s_rules sc)) (with_loc init sc)) with (guard c (Some (s_rules sc)) sc).
+        rewrite (guard_rel X c _ _ sc xsc Hsc Hini). exact G. }
+      pose proof (fde_sim (Some (s_rules sc)) (Some (x_rules xsc)) asz init (spec_end asz init range) Hasz Hini
+                          0 lf itf Hf (with_loc init sc) xsc Hsc G' ltac:(cbn [with_loc s_loc]; lia)) as H.
+      destruct (spec_run c p (Some (s_rules sc)) (spec_end asz init range) (with_loc init sc) itf) as [r [o sf]].
+      cbn [fst snd] in *. exact H.
+    + cbn [fst snd outcome_of]. split; [constructor|reflexivity].
+  - destruct H as (rows & sc & ->). cbn [fst snd outcome_of]. split; [constructor|reflexivity].
+Qed.
+
+End Progs.
+
+Lemma implc_mono (X Y : uexpr -> list byte -> Prop) caf daf aa l items :
+  (forall u e, X u e -> Y u e) -> implc X caf daf aa l items -> implc Y caf daf aa l items.
+Proof.
+  intros H. induction 1; [constructor|constructor; try assumption; eapply insn_rel_mono; eassumption|constructor; assumption].
+Qed.
+
+Lemma impl_mono (X Y : uexpr -> list byte -> Prop) caf daf aa prev l items :
+  (forall u e, X u e -> Y u e) -> impl X caf daf aa prev l items -> impl Y caf daf aa prev l items.
+Proof.
+  intros H. induction 1.
+  - constructor.
+  - constructor; try assumption. eapply insn_rel_mono; eassumption.
+  - constructor; assumption.
+  - econstructor; try eassumption. eapply insn_rel_mono; eassumption.
+  - econstructor; eassumption.
+Qed.
